@@ -1363,3 +1363,584 @@ func freshAlloc(v ssa.Value, d int) bool {
 	}
 	return false
 }
+
+// ---------------------------------------------------------------- round 16
+
+// ruleRecordDeletedOnlyByPurge: outside package store a persisted record is
+// deleted by the purge alone (an eviction hook, say, must not take the
+// persisted copy with it).
+func ruleRecordDeletedOnlyByPurge(c *Ctx) {
+	purge := c.P.Method("cache", "dispatcher", "RemoveHTTPCache")
+	if purge == nil {
+		c.undecided("record-deleted-only-by-purge", "cache", "-", "the purge function was not found")
+		return
+	}
+	isStoreDelete := func(cc *ssa.CallCommon) bool {
+		if cc.IsInvoke() {
+			if cc.Method.Name() != "Delete" {
+				return false
+			}
+			nt, ok := cc.Value.Type().(*types.Named)
+			return ok && nt.Obj().Pkg() != nil && nt.Obj().Pkg().Path() == pkgPath("store")
+		}
+		sc := cc.StaticCallee()
+		return sc != nil && inPkg(sc, "store") && sc.Name() == "Delete" && sc.Signature.Recv() != nil
+	}
+	sites := 0
+	bad := []string{}
+	for _, f := range c.P.allFuncs {
+		if inPkg(f, "store") {
+			continue
+		}
+		for _, b := range f.Blocks {
+			for _, in := range b.Instrs {
+				ci, ok := in.(ssa.CallInstruction)
+				if !ok || !isStoreDelete(ci.Common()) {
+					continue
+				}
+				sites++
+				root := f
+				for root.Parent() != nil {
+					root = root.Parent()
+				}
+				isHook := false
+				if f.Parent() != nil {
+					for _, r := range *referrersOfFunc(f) {
+						if st, ok := r.(*ssa.Store); ok {
+							if fa, ok := st.Addr.(*ssa.FieldAddr); ok && fieldOf(fa.X.Type(), fa.Field).Name() == "OnEvicted" {
+								isHook = true
+							}
+						}
+					}
+				}
+				if isHook || !(root == purge || onlyReachedFrom(c.P, root, purge, map[*ssa.Function]bool{})) {
+					bad = append(bad, fmt.Sprintf("%s: %s deletes a persisted record although no purge asked for it: an entry squeezed out of the LRU (or a hit-for-pass marker) is meant to come back from the store on its next use", c.P.pos(in.Pos()), funcName(f)))
+				}
+			}
+		}
+	}
+	if sites == 0 {
+		c.undecided("record-deleted-only-by-purge", funcName(purge), c.P.pos(purge.Pos()), "no call of Store.Delete found outside package store")
+		return
+	}
+	sort.Strings(bad)
+	c.check(len(bad) == 0, "record-deleted-only-by-purge", funcName(purge), c.P.pos(purge.Pos()), fmt.Sprintf("%d places outside package store delete a persisted record, all of them in the purge", sites), strings.Join(uniq(bad), " || "), sites)
+}
+
+// referrersOfFunc: instructions that use a function literal's closure value.
+func referrersOfFunc(f *ssa.Function) *[]ssa.Instruction {
+	out := []ssa.Instruction{}
+	if p := f.Parent(); p != nil {
+		for _, b := range p.Blocks {
+			for _, in := range b.Instrs {
+				if mc, ok := in.(*ssa.MakeClosure); ok && mc.Fn == f {
+					if mc.Referrers() != nil {
+						out = append(out, *mc.Referrers()...)
+					}
+				}
+				for _, op := range in.Operands(nil) {
+					if *op == ssa.Value(f) {
+						out = append(out, in)
+					}
+				}
+			}
+		}
+	}
+	return &out
+}
+
+// ruleCodecNoAlias: no codec library call in package compress is handed the
+// same buffer as source and destination.
+func ruleCodecNoAlias(c *Ctx) {
+	base := func(v ssa.Value) ssa.Value {
+		for d := 0; d < 6; d++ {
+			switch x := v.(type) {
+			case *ssa.Slice:
+				v = x.X
+			case *ssa.Convert:
+				v = x.X
+			case *ssa.ChangeType:
+				v = x.X
+			default:
+				return v
+			}
+		}
+		return v
+	}
+	isBytes := func(t types.Type) bool {
+		sl, ok := t.Underlying().(*types.Slice)
+		if !ok {
+			return false
+		}
+		b, ok := sl.Elem().Underlying().(*types.Basic)
+		return ok && b.Kind() == types.Byte
+	}
+	n := 0
+	bad := []string{}
+	for _, f := range c.P.allFuncs {
+		if !inPkg(f, "compress") {
+			continue
+		}
+		for _, b := range f.Blocks {
+			for _, in := range b.Instrs {
+				ci, ok := in.(ssa.CallInstruction)
+				if !ok {
+					continue
+				}
+				sc := ci.Common().StaticCallee()
+				if sc == nil || isPike(sc) {
+					continue
+				}
+				args := []ssa.Value{}
+				for _, a := range ci.Common().Args {
+					if isBytes(a.Type()) {
+						if k, isConst := a.(*ssa.Const); isConst && k.Value == nil {
+							continue
+						}
+						args = append(args, base(a))
+					}
+				}
+				if len(args) < 2 {
+					continue
+				}
+				n++
+				for i := 0; i < len(args); i++ {
+					for j := i + 1; j < len(args); j++ {
+						if args[i] == args[j] {
+							bad = append(bad, fmt.Sprintf("%s: %s hands %s the same buffer as source and destination: the library forbids overlapping buffers, and once the output overtakes the unread input a valid stream is rejected or decoded wrongly", c.P.pos(in.Pos()), funcName(f), sc.Name()))
+						}
+					}
+				}
+			}
+		}
+	}
+	sort.Strings(bad)
+	c.check(len(bad) == 0, "codec-no-alias", "compress", "compress/compress.go", fmt.Sprintf("%d codec library calls take two byte buffers; in none of them are the two the same buffer", n), strings.Join(uniq(bad), " || "), n+1)
+}
+
+// ruleCompressFromAnyVariant: pre-compression gives up only after it has asked
+// for the raw body (which is recovered from a stored variant when absent).
+func ruleCompressFromAnyVariant(c *Ctx) {
+	fn := respMethod(c.P, "Compress")
+	if fn == nil {
+		c.undecided("compress-from-any-variant", "Compress", "-", "not found")
+		return
+	}
+	name, pos := funcName(fn), c.P.pos(fn.Pos())
+	n, gaveUp := 0, 0
+	bad := []string{}
+	sim := c.P.Simulate(fn, SimConfig{}, func(pr *PathResult) {
+		n++
+		if pr.Exit != "return" || len(pr.Results) != 1 || pr.Results[0].IsNil() {
+			return
+		}
+		if k, isNil := pr.Facts.Decide(eqTerm(pr.Results[0], nilTerm(nil))); k && isNil {
+			return
+		}
+		gaveUp++
+		asked := false
+		for _, e := range pr.Events {
+			if e.Kind == "call" && e.Callee != nil && e.Callee.Name() == "GetRawBody" {
+				asked = true
+			}
+		}
+		if !asked {
+			bad = append(bad, "gives up with "+prettyTerm(pr.Results[0])+" without having asked for the raw body: a response that arrived already compressed (raw body empty, one variant present) is stored without its other variant and re-coded on every request, on path ["+condString(pr.Conds)+"]")
+		}
+	})
+	if sim.Overflow || n == 0 || gaveUp == 0 {
+		c.undecided("compress-from-any-variant", name, pos, "no failing path of Compress recognised")
+		return
+	}
+	c.check(len(bad) == 0, "compress-from-any-variant", name, pos, fmt.Sprintf("%d paths, %d of them give up: each only after GetRawBody was consulted", n, gaveUp), strings.Join(uniq(bad), " || "), n)
+}
+
+// ruleWatchForwardsCallback: config.Watch hands the caller's callback to the
+// client, or wraps it in a function that calls it on every path.
+func ruleWatchForwardsCallback(c *Ctx) {
+	fn := c.P.Func("config", "Watch")
+	if fn == nil || len(fn.Params) == 0 {
+		c.undecided("watch-forwards-callback", "config.Watch", "-", "not found")
+		return
+	}
+	name, pos := funcName(fn), c.P.pos(fn.Pos())
+	cb := fn.Params[0]
+	n := 0
+	bad := []string{}
+	for _, b := range fn.Blocks {
+		for _, in := range b.Instrs {
+			ci, ok := in.(ssa.CallInstruction)
+			if !ok || ci.Common().Method == nil && (ci.Common().StaticCallee() == nil || ci.Common().StaticCallee().Name() != "Watch") {
+				continue
+			}
+			if ci.Common().IsInvoke() && ci.Common().Method.Name() != "Watch" {
+				continue
+			}
+			for _, a := range ci.Common().Args {
+				a = stripConv(a)
+				if a == ssa.Value(cb) {
+					n++
+					continue
+				}
+				mc, ok := a.(*ssa.MakeClosure)
+				if !ok {
+					continue
+				}
+				lit, _ := mc.Fn.(*ssa.Function)
+				if lit == nil {
+					continue
+				}
+				n++
+				// the captured callback
+				var fvCb *ssa.FreeVar
+				for j, bnd := range mc.Bindings {
+					if bnd == ssa.Value(cb) && j < len(lit.FreeVars) {
+						fvCb = lit.FreeVars[j]
+					}
+				}
+				callsIn := map[*ssa.BasicBlock]bool{}
+				for _, lb := range lit.Blocks {
+					for _, li := range lb.Instrs {
+						if lc, ok := li.(*ssa.Call); ok && fvCb != nil && lc.Call.Value == ssa.Value(fvCb) {
+							callsIn[lb] = true
+						}
+					}
+				}
+				escapes := false
+				seen := map[*ssa.BasicBlock]bool{}
+				var dfs func(x *ssa.BasicBlock)
+				dfs = func(x *ssa.BasicBlock) {
+					if seen[x] || escapes || callsIn[x] {
+						return
+					}
+					seen[x] = true
+					if _, isRet := x.Instrs[len(x.Instrs)-1].(*ssa.Return); isRet {
+						escapes = true
+						return
+					}
+					for _, s := range x.Succs {
+						dfs(s)
+					}
+				}
+				if len(lit.Blocks) > 0 {
+					dfs(lit.Blocks[0])
+				}
+				if fvCb == nil || escapes {
+					bad = append(bad, fmt.Sprintf("%s: the function handed to the client's Watch does not call the caller's callback on every path: a change event can be swallowed (e.g. judged a duplicate because something else read the configuration in between) and the running instance stays on the old configuration", c.P.pos(lit.Pos())))
+				}
+			}
+		}
+	}
+	if n == 0 {
+		c.undecided("watch-forwards-callback", name, pos, "the callback is not handed to a Watch call")
+		return
+	}
+	c.check(len(bad) == 0, "watch-forwards-callback", name, pos, fmt.Sprintf("%d hand-overs: the client is given the caller's callback itself, or a wrapper that calls it on every path", n), strings.Join(uniq(bad), " || "), n)
+}
+
+// ruleResetInputReadOnly: the registry Reset functions never edit the option
+// list they were given (removing elements from the slice a loop is walking
+// skips the element that slides into the freed slot).
+func ruleResetInputReadOnly(c *Ctx) {
+	regs := []struct{ pkg, typ, method string }{
+		{"cache", "dispatchers", "Reset"}, {"upstream", "upstreamServers", "Reset"}, {"server", "servers", "Reset"},
+		{"compress", "compressSrvs", "Reset"}, {"location", "Locations", "Set"},
+	}
+	n := 0
+	bad := []string{}
+	for _, r := range regs {
+		fn := c.P.Method(r.pkg, r.typ, r.method)
+		if fn == nil {
+			continue
+		}
+		for _, prm := range fn.Params {
+			if _, ok := prm.Type().Underlying().(*types.Slice); !ok {
+				continue
+			}
+			n++
+			derived := map[ssa.Value]bool{prm: true}
+			fns := []*ssa.Function{fn}
+			fns = append(fns, fn.AnonFuncs...)
+			cells := map[ssa.Value]bool{}
+			for changed := true; changed; {
+				changed = false
+				for _, f := range fns {
+					for _, b := range f.Blocks {
+						for _, in := range b.Instrs {
+							if st, ok := in.(*ssa.Store); ok && derived[st.Val] && !cells[st.Addr] {
+								if _, isAlloc := st.Addr.(*ssa.Alloc); isAlloc {
+									cells[st.Addr], changed = true, true
+								}
+							}
+							if mc, ok := in.(*ssa.MakeClosure); ok {
+								if lit, ok := mc.Fn.(*ssa.Function); ok {
+									for j, bnd := range mc.Bindings {
+										if cells[bnd] && j < len(lit.FreeVars) && !cells[lit.FreeVars[j]] {
+											cells[lit.FreeVars[j]], changed = true, true
+										}
+									}
+								}
+							}
+							v, ok := in.(ssa.Value)
+							if !ok || derived[v] {
+								continue
+							}
+							switch x := in.(type) {
+							case *ssa.Phi:
+								for _, e := range x.Edges {
+									if derived[e] {
+										derived[v], changed = true, true
+									}
+								}
+							case *ssa.UnOp:
+								// a read of the cell the list lives in (a parameter that is assigned to, or captured by a literal)
+								if cells[x.X] {
+									derived[v], changed = true, true
+								}
+							case *ssa.Slice:
+								if derived[x.X] {
+									derived[v], changed = true, true
+								}
+							case *ssa.Call:
+								if bi, ok := x.Call.Value.(*ssa.Builtin); ok && bi.Name() == "append" && derived[x.Call.Args[0]] {
+									derived[v], changed = true, true
+								}
+							}
+						}
+					}
+				}
+			}
+			for _, f := range fns {
+				for _, b := range f.Blocks {
+					for _, in := range b.Instrs {
+						switch x := in.(type) {
+						case *ssa.Call:
+							if bi, ok := x.Call.Value.(*ssa.Builtin); ok && bi.Name() == "append" && derived[x.Call.Args[0]] {
+								bad = append(bad, fmt.Sprintf("%s: %s appends onto (a piece of) the option list it was given: the list is edited while it is being applied, and the option that slides into a freed slot is skipped (its server is neither updated nor kept)", c.P.pos(x.Pos()), funcName(f)))
+							}
+						case *ssa.Store:
+							if ia, ok := x.Addr.(*ssa.IndexAddr); ok && derived[ia.X] {
+								if _, isStruct := x.Val.Type().Underlying().(*types.Struct); isStruct {
+									bad = append(bad, fmt.Sprintf("%s: %s overwrites an element of the option list it was given", c.P.pos(x.Pos()), funcName(f)))
+								}
+							}
+						}
+					}
+				}
+			}
+		}
+	}
+	if n < 4 {
+		c.undecided("reset-input-read-only", "registries", "-", fmt.Sprintf("only %d option lists found", n))
+		return
+	}
+	sort.Strings(bad)
+	c.check(len(bad) == 0, "reset-input-read-only", "registries", "main.go", fmt.Sprintf("%d option lists handed to the registry resets, none of them appended onto or overwritten", n), strings.Join(uniq(bad), " || "), n)
+}
+
+// ruleSetPublishesAll: Locations.Set publishes one location for each it is
+// given: every iteration of the filling loop writes its element.
+func ruleSetPublishesAll(c *Ctx) {
+	fn := c.P.Method("location", "Locations", "Set")
+	if fn == nil {
+		c.undecided("set-publishes-all", "Locations.Set", "-", "not found")
+		return
+	}
+	name, pos := funcName(fn), c.P.pos(fn.Pos())
+	writes := map[*ssa.BasicBlock]ssa.Instruction{}
+	for _, b := range fn.Blocks {
+		for _, in := range b.Instrs {
+			switch x := in.(type) {
+			case *ssa.Store:
+				if ia, ok := x.Addr.(*ssa.IndexAddr); ok {
+					if pt, ok := x.Val.Type().(*types.Pointer); ok && strings.HasSuffix(pt.Elem().String(), "location.Location") {
+						_ = ia
+						writes[b] = in
+					}
+				}
+			case *ssa.Call:
+				if bi, ok := x.Call.Value.(*ssa.Builtin); ok && bi.Name() == "append" && strings.HasSuffix(x.Type().String(), "location.Location") {
+					writes[b] = in
+				}
+			}
+		}
+	}
+	n := 0
+	bad := []string{}
+	for wb, in := range writes {
+		if !inLoop(wb) {
+			continue
+		}
+		// innermost header: dominates the write and is reached back from it
+		var h *ssa.BasicBlock
+		for _, cand := range fn.Blocks {
+			isHeader := false
+			for _, p := range cand.Preds {
+				if cand.Dominates(p) {
+					isHeader = true
+				}
+			}
+			if isHeader && cand.Dominates(wb) && reaches(wb, cand, map[*ssa.BasicBlock]bool{}) {
+				if h == nil || h.Dominates(cand) {
+					h = cand
+				}
+			}
+		}
+		if h == nil {
+			continue
+		}
+		n++
+		// an iteration that comes back to the header without passing the write
+		skipped := false
+		seen := map[*ssa.BasicBlock]bool{}
+		var dfs func(x *ssa.BasicBlock)
+		dfs = func(x *ssa.BasicBlock) {
+			if skipped || seen[x] || x == wb || !h.Dominates(x) {
+				return
+			}
+			seen[x] = true
+			for _, s := range x.Succs {
+				if s == h {
+					skipped = true
+					return
+				}
+				dfs(s)
+			}
+		}
+		for _, s := range h.Succs {
+			if h.Dominates(s) && reaches(s, h, map[*ssa.BasicBlock]bool{}) {
+				dfs(s)
+			}
+		}
+		if skipped {
+			bad = append(bad, fmt.Sprintf("%s: an iteration of the loop that fills the published list can come round without writing its location: a location the configuration was accepted with is missing after it is applied, and every server naming it answers 503", c.P.pos(in.Pos())))
+		}
+	}
+	if n == 0 {
+		c.undecided("set-publishes-all", name, pos, "no loop that fills the published list was recognised")
+		return
+	}
+	sort.Strings(bad)
+	c.check(len(bad) == 0, "set-publishes-all", name, pos, fmt.Sprintf("%d filling loops: every iteration writes its location", n), strings.Join(uniq(bad), " || "), n)
+}
+
+// ruleRedisReadsMaster: the redis client is not told to serve reads from replicas.
+func ruleRedisReadsMaster(c *Ctx) {
+	forbidden := map[string]bool{"ReadOnly": true, "RouteByLatency": true, "RouteRandomly": true}
+	n := 0
+	bad := []string{}
+	for _, f := range c.P.allFuncs {
+		if !inPkg(f, "store") {
+			continue
+		}
+		for _, b := range f.Blocks {
+			for _, in := range b.Instrs {
+				st, ok := in.(*ssa.Store)
+				if !ok {
+					continue
+				}
+				fa, ok := st.Addr.(*ssa.FieldAddr)
+				if !ok {
+					continue
+				}
+				fv := fieldOf(fa.X.Type(), fa.Field)
+				if fv == nil || fv.Pkg() == nil || !strings.Contains(fv.Pkg().Path(), "go-redis") {
+					continue
+				}
+				n++
+				if forbidden[fv.Name()] {
+					if k, isConst := st.Val.(*ssa.Const); !isConst || !isZeroConst(k) {
+						bad = append(bad, fmt.Sprintf("%s: %s sets redis option %s: in cluster mode reads then go to replicas, which lag behind the master, so a record a purge has just deleted can still be read back and served", c.P.pos(in.Pos()), funcName(f), fv.Name()))
+					}
+				}
+			}
+		}
+	}
+	if n < 3 {
+		c.undecided("redis-reads-master", "store", "-", fmt.Sprintf("only %d redis options set", n))
+		return
+	}
+	sort.Strings(bad)
+	c.check(len(bad) == 0, "redis-reads-master", "newRedisStore", "store/redis.go", fmt.Sprintf("%d redis client options set, none of them routes reads to replicas", n), strings.Join(uniq(bad), " || "), n)
+}
+
+// ruleDialerNoAbsoluteDeadline: the upstream transport's dialer carries no
+// absolute deadline (it would be fixed when the upstream is built).
+func ruleDialerNoAbsoluteDeadline(c *Ctx) {
+	n := 0
+	bad := []string{}
+	for _, f := range c.P.allFuncs {
+		if !isPike(f) {
+			continue
+		}
+		for _, b := range f.Blocks {
+			for _, in := range b.Instrs {
+				st, ok := in.(*ssa.Store)
+				if !ok {
+					continue
+				}
+				fa, ok := st.Addr.(*ssa.FieldAddr)
+				if !ok {
+					continue
+				}
+				fv := fieldOf(fa.X.Type(), fa.Field)
+				if fv == nil || fv.Pkg() == nil || fv.Pkg().Path() != "net" {
+					continue
+				}
+				if !strings.HasSuffix(fa.X.Type().String(), "net.Dialer") {
+					continue
+				}
+				n++
+				if fv.Name() == "Deadline" || fv.Name() == "Cancel" {
+					bad = append(bad, fmt.Sprintf("%s: %s sets net.Dialer.%s: an absolute point in time fixed when the transport is built; once it has passed every new connection to the upstream fails at once, so a server that recovers is picked again but never reached", c.P.pos(in.Pos()), funcName(f), fv.Name()))
+				}
+			}
+		}
+	}
+	if n == 0 {
+		c.undecided("dialer-no-absolute-deadline", "upstream", "-", "no net.Dialer is configured")
+		return
+	}
+	sort.Strings(bad)
+	c.check(len(bad) == 0, "dialer-no-absolute-deadline", "newTransport", "upstream/upstream.go", fmt.Sprintf("%d net.Dialer options set, only relative ones (Timeout, KeepAlive)", n), strings.Join(uniq(bad), " || "), n)
+}
+
+// ruleResponseNeverOverwritten: a response object, once built, is never
+// overwritten as a whole (clients that were handed it read it without a lock).
+func ruleResponseNeverOverwritten(c *Ctx) {
+	isResp := func(t types.Type) bool {
+		n, ok := t.(*types.Named)
+		return ok && n.Obj().Pkg() != nil && n.Obj().Pkg().Path() == pkgPath("cache") && n.Obj().Name() == "HTTPResponse"
+	}
+	n := 0
+	bad := []string{}
+	for _, f := range c.P.allFuncs {
+		for _, b := range f.Blocks {
+			for _, in := range b.Instrs {
+				switch x := in.(type) {
+				case *ssa.Alloc:
+					if pt, ok := x.Type().(*types.Pointer); ok && isResp(pt.Elem()) {
+						n++
+					}
+				case *ssa.Store:
+					if !isResp(x.Val.Type()) {
+						continue
+					}
+					if _, isConst := x.Val.(*ssa.Const); isConst {
+						continue
+					}
+					if al, ok := x.Addr.(*ssa.Alloc); ok && al.Parent() == f {
+						continue // filling the object this function has just allocated
+					}
+					bad = append(bad, fmt.Sprintf("%s: %s overwrites a whole response object in place: hit clients that were handed that object are still reading its status, header and bodies without any lock, and get a mix of two generations", c.P.pos(x.Pos()), funcName(f)))
+				}
+			}
+		}
+	}
+	if n == 0 {
+		c.undecided("response-never-overwritten", "cache.HTTPResponse", "-", "no place builds a response")
+		return
+	}
+	sort.Strings(bad)
+	c.check(len(bad) == 0, "response-never-overwritten", "cache.HTTPResponse", "cache/http_response.go", fmt.Sprintf("%d places build a response; none overwrites an existing one as a whole", n), strings.Join(uniq(bad), " || "), n)
+}
